@@ -201,8 +201,7 @@ impl Walrus {
                 }
             }
 
-            // Tail path
-            let tail_snapshot = (info.tail_block_id, info.tail_offset);
+            // Tail path (the tail position is taken below, once the column lock is held again)
             drop(info);
             #[cfg(walrus_verif)]
             crate::wal::verif::yield_point("rn_t_snap");
@@ -225,6 +224,14 @@ impl Walrus {
             let mut info = info_arc.write().map_err(|_| {
                 io::Error::new(io::ErrorKind::Other, "col info write lock poisoned")
             })?;
+            // A block sealed since the tail snapshot is served through the sealed path first (its
+            // sealed copy carries the tail progress). Otherwise take the tail position again under
+            // this lock: another consumer may have advanced it since the snapshot.
+            if info.cur_block_idx < info.chain.len() {
+                drop(info);
+                continue;
+            }
+            let tail_snapshot = (info.tail_block_id, info.tail_offset);
             if let Some((tail_block_id, tail_off)) = persisted_tail {
                 if tail_block_id != active_block.id {
                     if let Some(idx) = info
@@ -316,6 +323,22 @@ impl Walrus {
                         let mut info = info_arc.write().map_err(|_| {
                             io::Error::new(io::ErrorKind::Other, "col info write lock poisoned")
                         })?;
+                        // Hand the entry out only if nothing moved since its offset was chosen: the
+                        // snapshot's block must still be the unsealed tail (chain ids ascend) and the
+                        // tail position must be where this read started. Otherwise another consumer
+                        // or a block rotation got in between: read again from the current state.
+                        let sealed_meanwhile = info.cur_block_idx < info.chain.len()
+                            || info.chain.last().map_or(false, |b| b.id >= active_block.id);
+                        let current_tail = if info.tail_block_id == active_block.id {
+                            info.tail_offset
+                        } else {
+                            0
+                        };
+                        if sealed_meanwhile || current_tail != tail_off {
+                            drop(info);
+                            persisted_tail = None;
+                            continue;
+                        }
                         let mut maybe_persist = None;
                         if checkpoint {
                             info.tail_block_id = active_block.id;
@@ -707,6 +730,13 @@ impl Walrus {
             let t_off = info.tail_offset;
 
             (c_chain, c_idx, c_off, t_bid, t_off, Some(info), 0, 0)
+        };
+
+        // The writer snapshot was taken before the column lock. If its block has been sealed since
+        // (chain ids ascend), its entries are served from the chain, not a second time as the tail.
+        let writer_snapshot = match writer_snapshot {
+            Some((b, _)) if chain.last().map_or(false, |l| l.id >= b.id) => None,
+            other => other,
         };
 
         // 2) Build read plan up to byte and entry limits
